@@ -9,12 +9,16 @@ EXTENDS PacketLayer
 CONSTANT LenClasses
 VARIABLE hist
 gvars == <<vars, hist>>
-Done  == Len(sent) = NMsgs /\ wire = <<>>
+Done  == Len(sent) = NMsgs /\ wire = <<>> /\ wcells = Cells
 GInit == Init /\ hist = <<>>
 GNext == /\ ~Done
          /\ \/ \E lc \in LenClasses : SendMessage /\ hist' = Append(hist, <<"Send", lc>>)
             \/ \E m \in Modes : ActivateOutbound(m) /\ hist' = Append(hist, <<"Switch", m>>)
             \/ RaiseNeedRekey /\ hist' = Append(hist, <<"Need", "">>)
+            \/ \E k \in 1..Cells : PartialSend(k) /\ hist' = Append(hist, <<"Write", ToString(k)>>)
+            \* a socket timeout inside write_all changes nothing (the same bytes are offered again)
+            \/ wcells < Cells /\ Len(hist) > 0 /\ hist[Len(hist)][1] # "WTimeout"
+                  /\ hist' = Append(hist, <<"WTimeout", "">>) /\ UNCHANGED vars
             \/ \E k \in 1..MaxChunk : Arrive(k) /\ hist' = Append(hist, <<"Arrive", ToString(k)>>)
             \/ ReadMessage /\ hist' = Append(hist, <<"Read", "">>)
 GSpec == GInit /\ [][GNext]_gvars
